@@ -1,6 +1,7 @@
 //! C10 — no undefined behaviour from the self-referential schema / reader in any history.
 //! Driver: runs the c10trace API-trace interpreter under Miri (Stacked Borrows; Tree Borrows and
-//! more schedules in thorough), AddressSanitizer (all codecs) and, in thorough, valgrind memcheck.
+//! more schedules in thorough), AddressSanitizer and ThreadSanitizer (all codecs) and, in thorough,
+//! valgrind memcheck.
 
 use crate::run::{finish, Report, Violation, VERIF};
 use serde_json::{json, Value};
@@ -8,7 +9,7 @@ use std::collections::BTreeMap;
 use std::process::{Command, Stdio};
 use std::time::Instant;
 
-const RULE: &str = "case = one API trace (12-16 operations) drawn from {parse text (plain / fancy spelling), build graph through the node API, edit through nodes_mut, freeze ok, freeze on each error exit (empty graph, dangling key reachable from the root, dangling key in an orphan node after earlier nodes were initialised, unnamed cycle, JSON error), move the schema (Box, Vec that reallocates, Arc, swap), serialize + owned decode, borrowed decode whose result outlives the schema, container Reader over slice / BufReader(1..9) / chunked reader for null, deflate, snappy (+ bzip2, xz, zstandard outside Miri) reading n values, cloning reader.schema() and dropping reader / handle in both orders and using the handle afterwards, Debug formatting, two scoped threads using &Schema / Arc<Schema> concurrently with results compared to the sequential ones, three threads making the very FIRST use of a freshly frozen schema concurrently, dropping everything in random order}; every trace runs under Miri (UB + data-race interpreter) and under AddressSanitizer; distinct = distinct trace seeds executed, non-trivial = every trace (each performs at least parse/build + drop)";
+const RULE: &str = "case = one API trace (12-16 operations) drawn from {parse text (plain / fancy spelling), build graph through the node API, edit through nodes_mut, freeze ok, freeze on each error exit (empty graph, dangling key reachable from the root, dangling key in an orphan node after earlier nodes were initialised, unnamed cycle, JSON error), move the schema (Box, Vec that reallocates, Arc, swap), serialize + owned decode, borrowed decode whose result outlives the schema, container Reader over slice / BufReader(1..9) / chunked reader for null, deflate, snappy (+ bzip2, xz, zstandard outside Miri) reading n values, cloning reader.schema() and dropping reader / handle in both orders and using the handle afterwards, Debug formatting, two scoped threads using &Schema / Arc<Schema> concurrently with results compared to the sequential ones, three threads making the very FIRST use of a freshly frozen schema concurrently, dropping everything in random order}; every trace runs under Miri (UB + data-race interpreter), under AddressSanitizer and under ThreadSanitizer (std rebuilt with the sanitizer, all six codecs); distinct = distinct trace seeds executed, non-trivial = every trace (each performs at least parse/build + drop)";
 
 struct Stage {
 	name: &'static str,
@@ -52,7 +53,7 @@ fn last_trace(out: &str) -> u64 {
 fn report_signature(stderr: &str) -> String {
 	let kind = stderr
 		.lines()
-		.find(|l| l.contains("Undefined Behavior") || l.contains("ERROR: AddressSanitizer") || l.contains("Data race") || l.starts_with("error:") || l.contains("Invalid read") || l.contains("Invalid write") || l.contains("uninitialised"))
+		.find(|l| l.contains("Undefined Behavior") || l.contains("ERROR: AddressSanitizer") || l.contains("WARNING: ThreadSanitizer") || l.contains("Data race") || l.starts_with("error:") || l.contains("Invalid read") || l.contains("Invalid write") || l.contains("uninitialised"))
 		.unwrap_or("abnormal exit")
 		.trim();
 	let kind: String = kind
@@ -63,7 +64,7 @@ fn report_signature(stderr: &str) -> String {
 	// only the part of the output that follows the report itself (compiler warnings precede it)
 	let after: Vec<&str> = stderr
 		.lines()
-		.skip_while(|l| !(l.contains("Undefined Behavior") || l.contains("ERROR: AddressSanitizer") || l.contains("Data race") || l.contains("Invalid read") || l.contains("Invalid write") || l.contains("uninitialised")))
+		.skip_while(|l| !(l.contains("Undefined Behavior") || l.contains("ERROR: AddressSanitizer") || l.contains("WARNING: ThreadSanitizer") || l.contains("Data race") || l.contains("Invalid read") || l.contains("Invalid write") || l.contains("uninitialised")))
 		.collect();
 	let frame = after
 		.iter()
@@ -256,6 +257,77 @@ pub fn run(thorough: bool, seed: u64) -> i32 {
 		}
 	}
 
+	// ---------------------------------------------------------------- ThreadSanitizer (all codecs; std rebuilt with the sanitizer)
+	let tsan_build = Command::new("cargo")
+		.args(["+nightly", "build", "--offline", "-q", "-Zbuild-std", "--target", "x86_64-unknown-linux-gnu", "--features", "ffi_codecs"])
+		.current_dir(&dir)
+		.env("CARGO_TARGET_DIR", format!("{VERIF}/target/c10tsan"))
+		.env("RUSTFLAGS", "-Zsanitizer=thread")
+		.output();
+	match tsan_build {
+		Ok(o) if o.status.success() => {
+			let mut st = Stage {
+				name: "tsan",
+				traces: 0,
+				ops: BTreeMap::new(),
+				bigrams: 0,
+				procs: 0,
+			};
+			let ntr = if thorough { 40_000 } else { 2_500 };
+			let children: Vec<_> = (0..nproc)
+				.map(|p| {
+					let pseed = crate::rng::mix(&[seed, 78, p]);
+					(
+						pseed,
+						Command::new(format!("{VERIF}/target/c10tsan/x86_64-unknown-linux-gnu/debug/c10trace"))
+							.arg(pseed.to_string())
+							.arg(ntr.to_string())
+							.arg(ops_per_trace.to_string())
+							.env("TSAN_OPTIONS", "halt_on_error=1:second_deadlock_stack=1")
+							.stdout(Stdio::piped())
+							.stderr(Stdio::piped())
+							.spawn(),
+					)
+				})
+				.collect();
+			for (pseed, ch) in children {
+				let out = match ch.and_then(|c| c.wait_with_output()) {
+					Ok(o) => o,
+					Err(_) => {
+						inconclusive += 1;
+						continue;
+					}
+				};
+				st.procs += 1;
+				let so = String::from_utf8_lossy(&out.stdout).into_owned();
+				let se = String::from_utf8_lossy(&out.stderr).into_owned();
+				for m in parse_summary(&so, &mut st) {
+					violations.push(Violation {
+						signature: format!("result-mismatch {}", m.chars().take(40).collect::<String>()),
+						case_seed: pseed,
+						detail: json!({"stage": "tsan", "mismatch": m}),
+					});
+				}
+				if !out.status.success() && out.status.code() != Some(3) {
+					let tseed = last_trace(&so);
+					let log = format!("{VERIF}/replays/C10-tsan-{tseed}.log");
+					let _ = std::fs::write(&log, &se);
+					violations.push(Violation {
+						signature: format!("tsan: {}", report_signature(&se)),
+						case_seed: tseed,
+						detail: json!({"stage": "tsan", "trace_seed": tseed.to_string(), "replay": format!("{VERIF}/target/c10tsan/x86_64-unknown-linux-gnu/debug/c10trace --trace {tseed} {ops_per_trace}"), "report_log": log,
+							"report_head": se.lines().filter(|l| !l.trim().is_empty()).take(14).collect::<Vec<_>>()}),
+					});
+				}
+			}
+			stages.push(st);
+		}
+		other => {
+			eprintln!("tsan stage unavailable (counted inconclusive): {:?}", other.map(|o| String::from_utf8_lossy(&o.stderr).chars().take(600).collect::<String>()));
+			inconclusive += 1;
+		}
+	}
+
 	// ---------------------------------------------------------------- valgrind memcheck (thorough)
 	if thorough {
 		let vb = Command::new("cargo")
@@ -342,6 +414,9 @@ pub fn run(thorough: bool, seed: u64) -> i32 {
 			"miri-stacked-borrows:op:reader:snappy",
 			"miri-stacked-borrows:op:move",
 			"asan:op:reader:zstandard",
+			"traces:tsan",
+			"tsan:op:threads-first-use",
+			"tsan:op:reader:zstandard",
 		],
 		thorough,
 		seed,
